@@ -33,6 +33,46 @@ def canary_request(method, path, field, decor_name, canary):
     return ser(method, target, hs, body), ser(method, ptarget, plain, pbody)
 
 
+def long_stall(t, rng, result):
+    """runs in a background thread for the whole campaign: a client requests a 24 MiB file, reads nothing for 18 s (a paused
+    download), then reads everything; result = dict filled with what arrived"""
+    import socket, time, hashlib
+    name = "/stall24m.bin"
+    data = rng.bytes(1 << 20) * 24
+    t.add_file(name, data)
+    srv = server.Server(t.root, threads=2)
+    try:
+        if not srv.started:
+            result["error"] = "server did not start"
+            return
+        s = socket.socket()
+        s.settimeout(60)
+        buf = b""
+        end = "eof"
+        try:
+            s.connect((srv.ip, srv.port))
+            s.sendall(("GET %s HTTP/1.1\r\nHost: x\r\n\r\n" % name).encode())
+            time.sleep(18)
+            chunks = []
+            while True:
+                ch = s.recv(1 << 20)
+                if not ch:
+                    break
+                chunks.append(ch)
+            buf = b"".join(chunks)
+        except socket.timeout:
+            end = "timeout"
+        except OSError:
+            end = "reset"
+        finally:
+            s.close()
+        head, _, body = buf.partition(b"\r\n\r\n")
+        m = re.search(rb"(?i)content-length: *(\d+)", head)
+        result.update({"announced": int(m.group(1)) if m else None, "received": len(body), "end": end, "same": hashlib.sha256(body).digest() == hashlib.sha256(data).digest(), "status_line": head.split(b"\r\n", 1)[0].decode("latin-1"), "size": len(data)})
+    finally:
+        srv.cleanup()
+
+
 def slow_readers(c, t, rng):
     import socket, time, hashlib
     c.need("slow reader received a large body")
@@ -108,7 +148,7 @@ def run(c):
     c.rule = ("(1) every response to the C04 input space (all methods, routes, error paths, both entry points, real binary) goes through an independent strict HTTP/1.1 parser with framing rules; "
               "(2) reflection: a unique canary decorated with CR / LF / CRLF / NUL / ':' / ': ' / U+2028 / 'CRLF header' in Origin, Access-Control-Request-*, Range, Content-Type, Host, target and body must not change the "
               "set of response header names nor start a line; (3) delivery: short-write scripts (constant chunk 1..64, first call accepts j bytes for every j over the head) must deliver the same bytes as an accept-all "
-              "transport; on the real binary a reader with a 2 KiB receive window that pauses between reads must receive bodies of 64 KiB .. 4 MiB in full. Class = (status, route, method, decoration kind, script kind); non-trivial = decorated or short-write.")
+              "transport; on the real binary a reader with a 2 KiB receive window that pauses between reads must receive bodies of 64 KiB .. 4 MiB in full, and a client that pauses for 18 s in the middle of a 24 MiB download (running in the background for the whole campaign) still receives all of it. Class = (status, route, method, decoration kind, script kind); non-trivial = decorated or short-write.")
     rng = c.rng
     t = treegen.generate(rng.fork("tree"), depth=2, tag="c05")
     for m in reqgen.METHODS:
@@ -116,6 +156,11 @@ def run(c):
     c.need("short-write script per head byte")
     c.need("engine B responses")
     c.need("reflection cases")
+    import threading
+    stall = {}
+    c.need("a download paused for 18 s arrived in full")
+    stall_thread = threading.Thread(target=long_stall, args=(t, rng.fork("stall"), stall))
+    stall_thread.start()
     try:
         inputs = [x for x in c04.build_inputs(c, t, rng) if "bufsize" not in x[0]]
         f = sorted(k for k in t.files if 50 < len(t.files[k]) < 3000)[0]
@@ -267,5 +312,17 @@ def run(c):
                 c.violation("C05:delivery:truncated-under-short-write:%s" % sc.split(":")[0], "transport script %s: %d of %d response bytes reached the peer (write returned Ok(n < len) and the rest was never written)" % (sc, len(sv.accepted), len(want)), rp)
             if len(c.samples) < 5 and cid.endswith("7"):
                 c.sample({"script": sc, "route": label["route"], "produced": len(want), "delivered": len(sv.accepted), "write_calls": len(sv.writes)})
+        # the paused download that has been running in the background since the start
+        stall_thread.join(120)
+        c.ev()
+        c.cls("paused-download", 18)
+        if stall_thread.is_alive() or "error" in stall or "received" not in stall:
+            c.inconc("the paused download did not finish: %s" % (stall.get("error") or "still running"))
+        elif stall["announced"] != stall["size"] or stall["received"] != stall["size"] or not stall["same"]:
+            c.violation("C05:delivery:truncated-after-a-pause", "a client that paused for 18 s in the middle of a 24 MiB download received %s of the %s body bytes announced (%s, connection ended with %s)" % (stall["received"], stall["announced"], stall["status_line"], stall["end"]), dict(stall))
+        else:
+            c.seen("a download paused for 18 s arrived in full")
     finally:
+        if stall_thread.is_alive():
+            stall_thread.join(120)
         t.cleanup()
